@@ -328,6 +328,16 @@ fn observe_inner(args: &Value) -> Value {
             let h = Hand::from_words(&words_of(&args["pre"]));
             put!("res", hilo_arr(&h.shift_suit().to_arr()));
         }
+        "shift_value" => {
+            // a hand of five to seven cards, the hand shifted, and the values of both (C08)
+            let h = Hand::from_words(&words_of(&args["pre"]));
+            let sh = h.shift_suit();
+            put!("res", hilo_arr(&sh.to_arr()));
+            put!("v_pre", ival(guarded(|| rank_value(&h) as i64)));
+            put!("v_post", ival(guarded(|| rank_value(&sh) as i64)));
+            put!("vv_pre", ival(guarded(|| rank_value_validated(&h) as i64)));
+            put!("vv_post", ival(guarded(|| rank_value_validated(&sh) as i64)));
+        }
         "valid" => {
             let h = Hand::from_words(&words_of(&args["words"]));
             put!("unique", json!(h.are_unique()));
@@ -613,7 +623,7 @@ fn observe_inner(args: &Value) -> Value {
                 None => {
                     put!("ok", json!(true));
                 }
-                Some((k, op, detail)) => {
+                Some((k, op, detail, _owners)) => {
                     put!("ok", json!(false));
                     put!("fail_step", json!(k));
                     put!("fail_op", json!(op));
